@@ -25,7 +25,7 @@ def run(c):
     # every case: where they hold the theorem says the Large model's run IS the Appendix-D run, so a deviation of the
     # implementation there cannot be one of the recorded deviation classes
     reach = theorem_reach(c, cases, vflags, want=('runguard',))
-    guarded = [all(r.get('run', (False,))) or r.get('runi', (False, False))[1] or r.get('runh', (False, False))[1] for r in reach]   # run_conforms / _initial / _history_partial
+    guarded = [all(r.get('run', (False,))) or r.get('runi', (False, False))[1] or r.get('runh', (False, False))[1] or r.get('runp', False) for r in reach]   # run_conforms / _initial / _history_partial / the prefix theorem (runs cut by the step bound)
     nontriv = set()
     hist = {'microsteps>1': 0, 'uses_history': 0, 'parallel': 0, 'multi_target': 0, 'by_origin': {}, 'by_dm': {}}
     for i, case in enumerate(cases):
@@ -86,7 +86,8 @@ def run(c):
                                    'static+guard+complete (run_conforms applies)': sum(1 for r in reach if all(r.get('run', (False,)))),
                                    'static_ib': sum(1 for r in reach if r.get('runi', (False,))[0]),
                                    'static_hb': sum(1 for r in reach if r.get('runh', (False,))[0]),
-                                   'run_conforms, run_conforms_initial or run_conforms_history_partial applies': sum(1 for g in guarded if g),
+                                   'run_conforms, run_conforms_initial or run_conforms_history_partial applies (complete runs)': sum(1 for r in reach if all(r.get('run', (False,))) or r.get('runi', (False, False))[1] or r.get('runh', (False, False))[1]),
+                                   'some run theorem applies (incl. run_conforms_prefix_history_partial for runs cut by the step bound)': sum(1 for g in guarded if g),
                                    'of those with >1 microstep': sum(1 for i, g in enumerate(guarded) if g and sum(1 for t in canon(res['large'][i])[0] if t == 'MS{') > 1)}
     c.cov['appendix_d_deviations'] = {k: len(v) for k, v in oracle.items()}
     # defect switches
